@@ -27,10 +27,30 @@ macro_rules! own_kind {
         fn order_nodes(n: &N) -> Vec<N> {
             n.preorder().search_nodes()
         }
+        fn post_nodes(n: &N) -> Vec<N> {
+            n.postorder().search_nodes()
+        }
+        fn find_nb(n: &N, k: &usize) -> Option<N> {
+            n.find_outbound(k)
+        }
+        fn queries(a: &N, b: &N) {
+            let _ = (a.is_connected(b.key()), a.find_outbound(b.key()).is_some(), a.find_inbound(b.key()).is_some(), b.find_inbound(a.key()).is_some(),
+                     a.out_degree(), a.in_degree(), a.is_root(), a.is_leaf(), a.is_orphan(), a.iter_out().count(), a.iter_in().count());
+        }
     };
     (un) => {
         fn order_nodes(n: &N) -> Vec<N> {
             n.order().pre().search_nodes()
+        }
+        fn post_nodes(n: &N) -> Vec<N> {
+            n.order().post().search_nodes()
+        }
+        fn find_nb(n: &N, k: &usize) -> Option<N> {
+            n.find_adjacent(k)
+        }
+        fn queries(a: &N, b: &N) {
+            let _ = (a.is_connected(b.key()), b.is_connected(a.key()), a.find_adjacent(b.key()).is_some(), b.find_adjacent(a.key()).is_some(),
+                     a.degree(), a.is_orphan(), a.iter().count());
         }
     };
 }
@@ -183,6 +203,63 @@ macro_rules! own_mod {
                                 drop(a);
                                 set(&mut slots, p(2), Slot::Opaque(Box::new(move || ns.iter().map(|n| { assert!(n.value().id % 1000 == *n.key()); n.value().id }).collect())));
                             }
+                            "own.post" => {
+                                let a = node_of(&slots, p(1))?;
+                                let ns = post_nodes(&a);
+                                drop(a);
+                                set(&mut slots, p(2), Slot::Opaque(Box::new(move || ns.iter().map(|n| { assert!(n.value().id % 1000 == *n.key()); n.value().id }).collect())));
+                            }
+                            "own.try" => {
+                                let (a, b) = (node_of(&slots, p(1))?, node_of(&slots, p(2))?);
+                                let _ = a.try_connect(&b, p(3) as u32);
+                                return Some("same".into());
+                            }
+                            "own.disc" => {
+                                let (a, b) = (node_of(&slots, p(1))?, node_of(&slots, p(2))?);
+                                let _ = a.disconnect(b.key());
+                                return Some("same".into());
+                            }
+                            "own.iso" => {
+                                let a = node_of(&slots, p(1))?;
+                                a.isolate();
+                                return Some("same".into());
+                            }
+                            "own.q" => {
+                                let (a, b) = (node_of(&slots, p(1))?, node_of(&slots, p(2))?);
+                                queries(&a, &b);
+                                return Some("same".into());
+                            }
+                            "own.find" => {
+                                let a = node_of(&slots, p(1))?;
+                                let r = find_nb(&a, &p(2));
+                                drop(a);
+                                set(&mut slots, p(3), r.map_or(Slot::Empty, Slot::Node));
+                            }
+                            "own.pathk" => {
+                                // own.pathk <bfs|dfs> <path|cycle> a t d
+                                let a = node_of(&slots, p(3))?;
+                                let tk = p(4);
+                                let path = match (t[1], t[2]) {
+                                    ("bfs", "path") => a.bfs().target(&tk).search_path(),
+                                    ("dfs", "path") => a.dfs().target(&tk).search_path(),
+                                    ("bfs", _) => a.bfs().search_cycle(),
+                                    _ => a.dfs().search_cycle(),
+                                };
+                                drop(a);
+                                let s = match path {
+                                    None => Slot::Empty,
+                                    Some(path) => Slot::Opaque(Box::new(move || {
+                                        let mut ks = vec![];
+                                        for Edge(u, v, _) in path.iter_edges() {
+                                            assert!(u.value().id % 1000 == *u.key() && v.value().id % 1000 == *v.key());
+                                            ks.push(u.value().id);
+                                            ks.push(v.value().id);
+                                        }
+                                        ks
+                                    })),
+                                };
+                                set(&mut slots, p(5), s);
+                            }
                             "own.held" => {
                                 let mut h = slots.get(p(1)).map_or(vec![], |s| s.held());
                                 h.sort();
@@ -298,7 +375,29 @@ pub fn gen_history(rng: &mut crate::rng::Rng, fl: &str, id: &str, nnodes: usize,
         let a = rng.below(nnodes);
         let s = nnodes + rng.below(nscratch);
         let si = s - nnodes;
-        match rng.below(16) {
+        match rng.below(25) {
+            16 | 17 => l.push(format!("own.try {a} {} {}", if rng.chance(10) { a } else { rng.below(nnodes) }, rng.below(3))),
+            18 => l.push(format!("own.disc {a} {}", if rng.chance(10) { a } else { rng.below(nnodes) })),
+            19 => {
+                if rng.chance(30) {
+                    l.push(format!("own.iso {a}"));
+                } else {
+                    l.push(format!("own.disc {a} {}", rng.below(nnodes)));
+                }
+            }
+            20 | 21 => l.push(format!("own.q {a} {}", if rng.chance(10) { a } else { rng.below(nnodes) })),
+            22 => {
+                l.push(format!("own.find {a} {} {s}", rng.below(nnodes)));
+                scratch_kind[si] = 1;
+            }
+            23 => {
+                l.push(format!("own.pathk {} {} {a} {} {s}", ["bfs", "dfs"][rng.below(2)], ["path", "cycle"][rng.below(2)], rng.below(nnodes)));
+                scratch_kind[si] = 2;
+            }
+            24 => {
+                l.push(format!("own.post {a} {s}"));
+                scratch_kind[si] = 2;
+            }
             0 | 1 => l.push(format!("own.connect {a} {} {}", if rng.chance(15) { a } else { rng.below(nnodes) }, rng.below(3))),
             2 => {
                 l.push(format!("own.clone {a} {s}"));
